@@ -278,7 +278,7 @@ func (w *Wire) seedUnsync(sport int, isn uint32) {
 		return
 	}
 	w.seeded = true
-	fl := Flow{Local: mustAddr(w.script.TLocal), Target: mustAddr(w.script.TTarget), RemoteISN: 0x0badc0de, LocalISN: isn}
+	fl := Flow{Local: mustAddr(w.script.TLocal), Target: mustAddr(w.script.TTarget), RemoteISN: 0x0badc0de, LocalISN: isn, TS: w.script.SackTS}
 	for _, in := range w.script.Inject {
 		in := in
 		at := time.Duration(in.AtUs)*time.Microsecond - time.Since(w.start)
@@ -865,7 +865,7 @@ func (w *Wire) sackAccept(s *source) {
 		w.Accepts++
 		ra := c.RemoteAddr().(*net.TCPAddr).AddrPort()
 		la := c.LocalAddr().(*net.TCPAddr).AddrPort()
-		fl := &Flow{Local: ra.Addr().Unmap(), Target: la.Addr().Unmap(), RemoteISN: 0x0badc0de, LocalISN: w.script.ISN + uint32(1000*(w.Accepts-1))}
+		fl := &Flow{Local: ra.Addr().Unmap(), Target: la.Addr().Unmap(), RemoteISN: 0x0badc0de, LocalISN: w.script.ISN + uint32(1000*(w.Accepts-1)), TS: w.script.SackTS}
 		if w.sackFlow == nil {
 			w.sackFlow = fl
 		}
